@@ -46,7 +46,7 @@ def toC(v):
 
 class ArrTr:
     def __init__(self, arrays, tree=None, opaque=None, opaque_calls=(), size_attrs=(), identity_calls=(), identity_attrs=(),
-                 inline=None, axis_name=None, axis_labels=None, passthrough=None):
+                 inline=None, axis_name=None, axis_labels=None, passthrough=None, len_exprs=None):
         # arrays: list of (python name, 'R' | 'C') ; element tuple nests to the left: ((a, b), c) ...
         self.arrays = arrays
         self.env = {}          # local name -> ('ast', node) | ('val', V) | ('len',) | ('leaf', k)
@@ -62,6 +62,7 @@ class ArrTr:
         self.axis_name = axis_name                  # e.g. 'vector': the arrays are the components of fields along this axis
         self.axis_labels = list(axis_labels or [])  # its labels in order, e.g. ['x', 'y', 'z']
         self.restrict = None
+        self.len_exprs = set(len_exprs or ())       # source texts that denote the common array length (e.g. 'nstop + 1')
         self.passthrough = dict(passthrough or {})  # call name -> index of the argument it returns with metadata attached (finalize)
 
     LEN = "(IZR (Z.of_nat (List.length cs)))"
@@ -175,7 +176,10 @@ class ArrTr:
             raise Unsupported("modulo other than integer % positive literal")
         if isinstance(e.op, ast.Div):
             if b.ty == "C":
-                raise Unsupported("division by a complex value")
+                # (ar + i ai) / (br + i bi) = ((ar br + ai bi) + i (ai br - ar bi)) / (br^2 + bi^2)
+                (ar, ai), (br, bi) = toC(a).code, b.code
+                den = "(%s * %s + %s * %s)" % (br, br, bi, bi)
+                return V("C", ("((%s * %s + %s * %s) / %s)" % (ar, br, ai, bi, den), "((%s * %s - %s * %s) / %s)" % (ai, br, ar, bi, den)), arr)
             d = toR(b).code
             if a.ty == "C":
                 return V("C", ("(%s / %s)" % (a.code[0], d), "(%s / %s)" % (a.code[1], d)), arr)
@@ -245,7 +249,8 @@ class ArrTr:
         if d in self.passthrough and len(e.args) > self.passthrough[d]:
             return self.ex(e.args[self.passthrough[d]], mode)
         if d in ("np.arange", "arange"):
-            if len(e.args) == 1 and isinstance(e.args[0], ast.Name) and self.env.get(e.args[0].id) == ("len",):
+            if len(e.args) == 1 and (isinstance(e.args[0], ast.Name) and self.env.get(e.args[0].id) == ("len",)
+                                     or ast.unparse(e.args[0]) in self.len_exprs):
                 if mode == "req":
                     raise Unsupported("unsliced index array inside a sum over adjacent elements")
                 return V("Z", "(l0 + 1)%Z" if mode == "hi" else "l0", True)
@@ -314,11 +319,20 @@ class ArrTr:
             self.env = saved
 
     def opaque_assign(self, s):
-        if isinstance(s, ast.Assign) and len(s.targets) == 1 and isinstance(s.targets[0], ast.Name) \
-                and s.targets[0].id in self.opaque and isinstance(s.value, ast.Call) and _dotted(s.value.func) in self.opaque_calls:
-            self.env[s.targets[0].id] = ("leaf", self.opaque[s.targets[0].id])
-            return True
-        return False
+        if not (isinstance(s, ast.Assign) and len(s.targets) == 1):
+            return False
+        v = s.value
+        if isinstance(v, ast.Subscript) and isinstance(v.slice, ast.Slice):
+            v = v.value                                   # a slice of an opaque producer's result is opaque too
+        if not (isinstance(v, ast.Call) and _dotted(v.func) in self.opaque_calls):
+            return False
+        t = s.targets[0]
+        names = [t] if isinstance(t, ast.Name) else list(t.elts) if isinstance(t, ast.Tuple) else []
+        if not names or not all(isinstance(n, ast.Name) and n.id in self.opaque for n in names):
+            return False
+        for n in names:
+            self.env[n.id] = ("leaf", self.opaque[n.id])
+        return True
 
     # ------------------------------------------------------------------ statements
     def body(self, stmts):
@@ -492,3 +506,52 @@ def translate_mixed(repo, relpath, qualname, name, params, arrays, source_method
     rty = "list R" if body.rstrip().endswith("]") else "R"
     sig = " ".join("(%s : R)" % p for p, _ in params)
     return "Definition %s %s (cs : list %s) : %s :=\n  %s.\n" % (name, sig, elem_type(arrays), rty, body)
+
+
+def translate_elementwise(repo, relpath, qualname, name, arrays, scalars, outputs, params, **opts):
+    """The elementwise definitions of the arrays [outputs] inside [qualname], as ONE function of the generic index and element:
+    `name <scalars> (l0 : Z) (c : E) : tuple of the outputs' generic elements` (complex outputs as pairs).  [scalars]: the
+    function's scalar parameters [(name, 'R' | 'C')] (a complex one becomes name_re, name_im); the statements after the last
+    output's assignment (the return with its slicing) are not read."""
+    with open(os.path.join(repo, relpath)) as f:
+        tree = ast.parse(f.read())
+    fn = find_function(tree, qualname)
+    pyargs = [x.arg for x in fn.args.args if x.arg != "self"]
+    if pyargs != list(params) or fn.args.vararg or fn.args.kwarg or fn.args.kwonlyargs \
+            or not all(isinstance(d, ast.Constant) for d in fn.args.defaults):
+        raise Unsupported("signature of %s is %r" % (qualname, pyargs))
+    tr = ArrTr(arrays, tree=tree, **opts)
+    for pn in pyargs:
+        tr.env[pn] = ("ignored",)
+    sig = []
+    for sn, ty in scalars:
+        if ty == "C":
+            tr.env[sn] = ("val", V("C", (sn + "_re", sn + "_im"), False))
+            sig += ["(%s_re : R)" % sn, "(%s_im : R)" % sn]
+        else:
+            tr.env[sn] = ("val", V("R", sn, False))
+            sig.append("(%s : R)" % sn)
+    last = max([i for i, st in enumerate(fn.body) if isinstance(st, ast.Assign) and len(st.targets) == 1
+                and isinstance(st.targets[0], ast.Name) and st.targets[0].id in outputs] or [-1])
+    if last < 0:
+        raise Unsupported("outputs %r are not assigned in %s" % (outputs, qualname))
+    for st in fn.body[:last + 1]:
+        if isinstance(st, ast.Expr) and isinstance(st.value, ast.Constant) and isinstance(st.value.value, str):
+            continue
+        if tr.opaque_assign(st):
+            continue
+        if isinstance(st, ast.Assign) and len(st.targets) == 1 and isinstance(st.targets[0], ast.Name):
+            tr.env[st.targets[0].id] = ("ast", st.value)
+            continue
+        raise Unsupported("statement %s in %s" % (type(st).__name__, qualname))
+    outs = []
+    for o in outputs:
+        if tr.env.get(o, ("",))[0] != "ast":
+            raise Unsupported("output %s" % o)
+        v = tr.ex(tr.env[o][1], None)
+        outs.append("(%s, %s)" % v.code if v.ty == "C" else toR(v).code)
+    if tr.lets:
+        raise Unsupported("reduction inside an elementwise definition")
+    E = elem_type(arrays)
+    body = "(" + ", ".join(outs) + ")" if len(outs) > 1 else outs[0]
+    return "Definition %s %s (l0 : Z) (c : %s) :=\n  %s.\n" % (name, " ".join(sig), E, body.replace("@E@", E))
